@@ -14,7 +14,7 @@ QUICK = {
     "C08": ["fub_poll_c2", "fu_poll_2", "fu_push_12", "fu_push_2", "fu_cur_12_c0", "mu_push_12"],
     "C09": ["ad_bu_n2", "ad_bu_n3", "ad_tbu_n2", "ad_fe_n1", "ad_bo_n2_p0"],
     "C10": ["ad_bu_n2", "ad_tbu_n2", "ad_fe_n1", "ad_fe_n0", "ad_bo_n2_p0", "ad_bo_n2"],
-    "C11": ["mb_poll_c2", "mb_end_many_6", "mu_poll_12_c0", "mu_poll_12_c1", "mu_push_12", "ctor_mb_from_iter"],
+    "C11": ["mb_poll_c2", "mb_push_c2", "mb_end_many_6", "mu_poll_12_c0", "mu_poll_12_c1", "mu_push_12", "ctor_mb_from_iter"],
     "C12": ["fub_poll_c2", "fub_wake_c2", "fub_push_c2", "mb_poll_c2", "fu_poll_2", "fub_poll_budget_61"],
     "C13": ["fub_poll_c2", "fub_poll_budget", "fub_poll_budget_61", "fub_poll_budget_many", "mu_poll_12_c0", "mu_poll_12_c1", "fu_poll_2"],
     "C14": ["ad_bu_n2", "ad_fe_n1", "fub_poll_c2_quiet", "fub_wake_c2", "fub_push_c2", "fub_drop_c2", "fu_cur_12_c0", "fub_poll_budget_61"],
@@ -165,10 +165,13 @@ h("mb_poll_c2_quiet", ["C14"], T, unwindset=MB_US, timeout=1200, covers=["cover:
 W_MU = ("MergeUnbounded<Src> with two groups: ONE poll_next from an arbitrary pre-state; a designated VICTIM source is queued in one group; "
         "ranking obligation: if the victim is not polled by this call it must be nearer to its turn afterwards (cursor distance, queue position)")
 h("mu_poll_12_c0", ["C13", "C11", "C01", "C18"], QT, unwindset=MB_US, timeout=1500, covers=["cover:item_from_other", "cover:pending"], what=W_MU, bounds="groups (1,2); cursor 0")
-h("mu_push_12", ["C11", "C18", "C08", "C01", "C12"], QT, covers=["cover:push_new_group", "cover:push_last_group"],
+h("mu_push_12", ["C11", "C18", "C08", "C01", "C12"], QT, mem=24, timeout=1500, covers=["cover:push_new_group", "cover:push_last_group"],
   what="MergeUnbounded<Src>: ONE push (a source added while the merge is being consumed) from an arbitrary two-group pre-state: the last group takes it or a group of twice the capacity is appended; no source is polled, moved or dropped; allocations only for a new group",
   bounds="groups (1,2)")
 h("mu_poll_12_c1", ["C13", "C11", "C01"], QT, unwindset=MB_US, timeout=1500, covers=["cover:item_from_other", "cover:pending"], what=W_MU, bounds="groups (1,2); cursor 1")
+h("mb_push_c2", ["C11", "C01", "C12", "C08", "C14", "C18"], QT, covers=["cover:push_ok", "cover:push_refused"],
+  what="MergeBounded<Src>: ONE try_push from an arbitrary INV pre-state (full or not): the source is held and marked ready, or handed back untouched; nothing polled, moved, dropped or woken; no allocation",
+  bounds="capacity 2")
 h("mb_end_many_6", ["C05", "C11", "C12", "C06", "C14"], QT, unwind=10, timeout=1200, covers=["cover:all_ended", "cover:one_left"],
   what="MergeBounded<EndSrc> with 6 queued sources of which an arbitrary subset answers None in ONE poll (the others Pending): every source polled exactly once, every ended source dropped by this call and never polled again, None iff all ended",
   bounds="6 sources, all queued, one poll; each source symbolic None/Pending; loops unwound 10")
